@@ -37,20 +37,21 @@ type World struct {
 	derefSum    map[*ssa.Function]map[int]bool
 
 	// new-function inlining (inline.go)
-	base        baselineFns
-	newMemo     map[*ssa.Function]bool
-	newSites    map[*ssa.Function][]ssa.CallInstruction
-	newRefs     map[*ssa.Function][]*ssa.Function
-	sumMemo     map[sumKey]int
-	defsMemo    map[*FuncInfo]*funcDefs
-	condAtoms   map[string]map[string]bool
-	deep        deepState
-	newCallBusy map[string]bool
-	vanished    []string
-	rangeOfFor  map[*ast.ForStmt]*ast.RangeStmt
-	forOfRange  map[*ast.RangeStmt]*ast.ForStmt
-	astSites    map[string][]astCallSite
-	newParams   map[types.Object]newParam
+	base          baselineFns
+	newMemo       map[*ssa.Function]bool
+	newSites      map[*ssa.Function][]ssa.CallInstruction
+	newRefs       map[*ssa.Function][]*ssa.Function
+	sumMemo       map[sumKey]int
+	defsMemo      map[*FuncInfo]*funcDefs
+	condAtoms     map[string]map[string]bool
+	deep          deepState
+	newCallBusy   map[string]bool
+	vanished      []string
+	printsPosMemo map[string]bool
+	rangeOfFor    map[*ast.ForStmt]*ast.RangeStmt
+	forOfRange    map[*ast.RangeStmt]*ast.ForStmt
+	astSites      map[string][]astCallSite
+	newParams     map[types.Object]newParam
 }
 
 type FuncInfo struct {
